@@ -65,7 +65,7 @@ def scenario_case(rng):
     ivl = rng.choice([1000, 2000, 10000])
     retry = rng.choice([ivl // buckets, ivl // 2, max(ivl // buckets - 1, 1), ivl // buckets + 1])
     minreq = rng.randint(1, 4)
-    thr = rng.choice(["1", "2", "3"]) if st == "c" else rng.choice(["1/4", "1/2", "2/3", "1"])
+    thr = rng.choice(["1", "2", "3", "3/2", "5/2"]) if st == "c" else rng.choice(["1/4", "1/2", "2/3", "1"])
     ops.append("br.load res=r rules=b;%s;%d;%d;%d;%d;50;%s" % (st, retry, minreq, ivl, buckets, thr))
     if rng.random() < 0.3:
         ops.append("flow.load res=r rules=f:%s:0" % rng.choice(["1", "2", "6"]))
@@ -141,9 +141,38 @@ def multi_probe_case(rng):
     return ops
 
 
+def ratio_boundary_case(rng):
+    """a ratio breaker whose threshold is a two-decimal number k/n-style (0.07, 0.14, 0.28, 0.55 ...) or the double nearest to k/n,
+    driven by exactly n completions of which k count against it, all inside the window: at the n-th completion the ratio EQUALS
+    the threshold and the breaker must open - not one completion later (seed C03-f: the comparison was rewritten as a product)"""
+    ops = ["clock"]
+    st = rng.choice(["r", "s"])
+    if rng.random() < 0.6:
+        k, n = rng.choice([(7, 25), (7, 50), (7, 100), (14, 25), (11, 20), (55, 100), (29, 100), (57, 100), (3, 10), (7, 10), (1, 3), (2, 7), (5, 9)])
+        thr = "%d/%d" % (k, n) if rng.random() < 0.5 else "%d/100" % round(100 * k / n) if (100 * k) % n == 0 else "%d/%d" % (k, n)
+    else:
+        n = rng.randint(2, 40)
+        k = rng.randint(1, n)
+        thr = "%d/%d" % (k, n)
+    ops.append("br.load res=r rules=b;%s;%d;%d;60000;%d;50;%s" % (st, 5000, n, rng.choice([1, 2]), thr))          # min request amount n: the threshold can only be met at the n-th completion
+    ops.append("adv ms=%d" % rng.choice([1, 250]))
+    bad = set(rng.sample(range(n - 1), k - 1)) | {n - 1} if k >= 1 else set()       # the last completion is a bad one
+    eid = 0
+    for i in range(n):
+        eid += 1
+        ops.append("build e=%d res=r batch=1 dir=out" % eid)
+        ops.append("adv ms=%d" % (60 if i in bad else 3))                            # slow (> 50 ms) and failed, or fast and fine
+        ops.append("exit e=%d err=%d" % (eid, 1 if i in bad else 0))
+        if i >= n - 3:
+            ops.append("br.state res=r")
+    eid += 1
+    ops += ["build e=%d res=r batch=1 dir=out" % eid, "br.state res=r"]
+    return ops
+
+
 def gen_own(rng, tier):
     n = 300 if tier == "quick" else 15000
-    return [gen_case(rng) for _ in range(n)] + [scenario_case(rng) if i % 5 else multi_probe_case(rng) for i in range(n)]
+    return [gen_case(rng) if i % 6 else ratio_boundary_case(rng) for i in range(n)] + [scenario_case(rng) if i % 5 else multi_probe_case(rng) for i in range(n)]
 
 
 def gen(rng, tier):
